@@ -177,3 +177,52 @@ func VerifHarness_C13_PairedLongQuery() {
 		verifReach("nonempty")
 	}
 }
+
+// the typo fallback answers (no query word is in the index): the relation holds there too,
+// also for matches whose raw matcher score is negative (long texts)
+func VerifHarness_C13_PairedFuzzy() {
+	mk := func(cmd, desc string) Command {
+		c := Command{Command: cmd, Description: desc}
+		vFill(&c)
+		return c
+	}
+	db := &Database{Commands: []Command{
+		mk("docker ps --all --format table", "list every running and stopped docker container with its ports and names"),
+		mk("podman ps", "list containers"),
+		mk("dock", "short"),
+		mk("systemctl status docker.service --no-pager --full", "show whether the docker daemon is up, with recent log lines and the full unit description"),
+	}}
+	db.BuildUniversalIndex()
+	db.buildTFIDFSearcher()
+	word := []string{"docker", "containers", "list"}[verifIntRange("boosted", 0, 2)]
+	f := []float64{1, 1.5, 2, 10, 1e6}[verifIntRange("factor", 0, 4)]
+	boosts := map[string]float64{word: f}
+	q := []string{"dcker", "dokcer ps", "contaners", "dckr lst"}[verifIntRange("query", 0, 3)]
+	base := SearchOptions{Limit: 10, AllPlatforms: true, UseFuzzy: true, UseNLP: verifBool("nlp"),
+		FuzzyThreshold: []int{0, -30, -1000}[verifIntRange("threshold", 0, 2)]}
+	with := base
+	with.ContextBoosts = boosts
+	r0 := db.SearchUniversal(q, base)
+	r1 := db.SearchUniversal(q, with)
+	verifAssert(len(r0) == len(r1), "C13: context boosts never add or remove a candidate")
+	for _, a := range r0 {
+		ia := c13Index(db, a.Command)
+		found := false
+		for _, b := range r1 {
+			if c13Index(db, b.Command) != ia {
+				continue
+			}
+			found = true
+			if c13Contains(a.Command, word) {
+				verifAssert(b.Score >= a.Score, "C13: boosting a word never lowers the score of a command containing it")
+			} else {
+				verifAssert(c03SameFloat(a.Score, b.Score), "C13: boosting a word never changes the score of a command that does not contain it")
+			}
+		}
+		verifAssert(found, "C13: every candidate without boosts is a candidate with boosts")
+	}
+	verifReach("paired")
+	if len(r0) > 0 {
+		verifReach("nonempty")
+	}
+}
